@@ -35,6 +35,9 @@ def convert_to_skopt_dim(cs_hp, surrogate_model=None):
         # to explode with categorical variables
         skopt_dim = deephyper.skopt.space.Categorical(
             categories=cs_hp.choices,
+            # keep the declared weights: without conditions or forbidden clauses the skopt
+            # dimension (not ConfigSpace) samples the category
+            prior=None if cs_hp.weights is None else list(cs_hp.probabilities),
             name=cs_hp.name,
             transform="onehot" if surrogate_model_type == "distance_based" else "label",
         )
